@@ -138,7 +138,7 @@ if not os.path.exists(os.path.join(ws, 'Cargo.lock')):
 # generated code for the runtime scenario (compiled against the rewritten pdl-runtime)
 gen = os.path.join(ws, 'gen')
 os.makedirs(gen, exist_ok=True)
-verif = os.path.dirname(sim)
+verif = os.environ.get('VERIF_DIR') or os.path.dirname(sim)
 mods = []
 for entry in ('hand_temporaries', 'snap_struct_decl_child_structs_little_endian', 'pdltests_02_semantic'):
     path = os.path.join(verif, 'corpus', 'src', entry + '.pdl')
